@@ -597,8 +597,15 @@ func buildReport(id string, w *World, opts *RunOpts, results []*FuncResult, all 
 	namedCount := 0
 	namedDischarged := 0
 	var namedList []string
+	knownObls := []string{}
 	for _, n := range named {
 		if n.Kind == "cover" || n.Kind == "canary" {
+			continue
+		}
+		if f, ok := wholeKnown[n.Name]; ok {
+			// the scenario obligation of a known finding: expected to fail, reported
+			// apart and not counted among the obligations claimed to hold
+			knownObls = append(knownObls, fmt.Sprintf("%s [known finding %s; fails in %d of %d queries]", n.Name, f.ID, len(n.Failed), len(n.Queries)))
 			continue
 		}
 		namedCount++
@@ -620,6 +627,7 @@ func buildReport(id string, w *World, opts *RunOpts, results []*FuncResult, all 
 	}
 	level := "proof"
 	cov := map[string]interface{}{
+		"known_finding_obligations":    knownObls,
 		"obligations":                  namedCount + extra.Count,
 		"discharged":                   namedDischarged + extra.Discharged,
 		"queries":                      nQueries,
